@@ -7,7 +7,7 @@ CONSTANTS
   MaxBatches = 2
   MaxMats = 2
   BatchIndexShifted = TRUE
-  UnconsumedPolicy = "zero"
+  UnconsumedPolicy = "ignore"
   Cfgs <- CfgQ
   Queries <- Q1
   PowBits <- Pow0
@@ -22,5 +22,4 @@ INVARIANTS
   CapsAccounted
   ScheduleIsFunctional
   WithheldHeightStillChecked
-  Emit
 CHECK_DEADLOCK FALSE
